@@ -77,6 +77,7 @@ type Opts struct {
 	// on /udp/<Port>/quic-v1 when Port != 0. NoTCPListen leaves the TCP transport dial-only.
 	QUIC        bool
 	QUICOpts    []libp2pquic.Option
+	QUICReuse   []quicreuse.Option // e.g. quicreuse.DisableReuseport(): every dial gets a socket of its own
 	NoTCPListen bool
 
 	WithHost bool // build a basic host on top of the swarm
@@ -284,9 +285,9 @@ func New(n *simnet.Net, o Opts) (*Node, error) {
 		copy(srk[:], []byte("verifsim-srk-"+id.String()))
 		copy(tk[:], []byte("verifsim-tok-"+id.String()))
 		src := net.ParseIP(o.IP)
-		cm, err := quicreuse.NewConnManager(srk, tk,
+		cm, err := quicreuse.NewConnManager(srk, tk, append([]quicreuse.Option{
 			quicreuse.OverrideListenUDP(n.UDPListenFunc(o.IP)),
-			quicreuse.OverrideSourceIPSelector(func() (quicreuse.SourceIPSelector, error) { return fixedSource{src}, nil }))
+			quicreuse.OverrideSourceIPSelector(func() (quicreuse.SourceIPSelector, error) { return fixedSource{src}, nil })}, o.QUICReuse...)...)
 		if err != nil {
 			sw.Close()
 			nd.closePS()
